@@ -876,6 +876,86 @@ def check_damaged(ctx: Optional[C.Ctx], dc: Dict[str, Any], bufsiz: int = 4096):
     return None
 
 
+
+def fallback_impl(data: bytes, bufsiz: int) -> str:
+    """PDFXRefFallback.load on the raw file, in the driver's `q.fallback` format."""
+    from pdfminer.pdfdocument import PDFXRefFallback
+    from pdfminer.pdfparser import PDFParser
+
+    class _Doc:
+        decipher = None
+
+    with BufSiz(bufsiz):
+        p = PDFParser(io.BytesIO(data))
+        p.set_document(_Doc())      # type: ignore[arg-type]
+        p.fallback = True
+        x = PDFXRefFallback()
+        try:
+            x.load(p)
+        except Exception as e:  # noqa: BLE001
+            return "EXC:" + type(e).__name__
+    return " ".join(f"{n}={('c%d' % s_) if s_ is not None else p_}:{g}" for n, (s_, p_, g) in x.offsets.items()) or "-"
+
+
+def table_impl(data: bytes, xref_pos: int, bufsiz: int) -> str:
+    """read_xref_from's classic branch at `xref_pos`, in the driver's `q.table` format (offsets only)."""
+    from pdfminer.pdfdocument import PDFNoValidXRef, PDFXRef
+    from pdfminer.pdfparser import PDFParser
+    with BufSiz(bufsiz):
+        p = PDFParser(io.BytesIO(data))
+        p.seek(xref_pos)
+        p.reset()
+        try:
+            (_pos, tok) = p.nexttoken()
+            if tok is p.KEYWORD_XREF:
+                p.nextline()
+            x = PDFXRef()
+            x.load(p)
+        except PDFNoValidXRef:
+            return "E novalidxref"
+        except Exception as e:  # noqa: BLE001
+            return "EXC:" + type(e).__name__
+    return " ".join(f"{n}={p_}:{g}" for n, (_s, p_, g) in x.offsets.items()) or "-"
+
+
+def tie_damaged(ctx: C.Ctx, dc: Dict[str, Any], bufsiz: int) -> None:
+    """Model vs implementation on the body scan and on the (possibly damaged) table text."""
+    import re
+    if ctx.driver is None:
+        return
+    good, bad, _objs = build_damaged(dc)
+    for label, data in (("good", good), ("bad", bad)):
+        lines = ["reset", "data " + C.hx(data)]
+        for m in re.finditer(rb"(?:(?<=[\r\n])|^)(\d+) (\d+) obj", data):
+            end = data.find(b"endobj", m.start()) + 6
+            lines.append(f"obj {m.start()} {int(m.group(1))} {int(m.group(2))} p1")
+            lines.append(f"end {m.start()} {end}")
+        nset = len(lines)
+        sx = data.rfind(b"startxref")
+        xr = data.rfind(b"xref", 0, sx)
+        q = ["q.fallback"]
+        is_kw = data[xr:xr + 4] == b"xref" and dc["damage"] != "xref-keyword"
+        if is_kw:
+            q.append(f"q.table {xr + 4}")
+        out = ctx.driver.ask(lines + q)
+        inp = {"kind": "damaged", "case": dc, "bufsiz": bufsiz, "file": label}
+        if any(o != "ok" for o in out[:nset]):
+            ctx.disagree("setup", inp, "ok", out[:nset][:3])
+            continue
+        fb = out[nset]
+        impl_fb = fallback_impl(data, bufsiz)
+        ctx.branch("tie:q.fallback")
+        model_fb = fb.split(" ", 2)[2] if fb.startswith("ok ") and fb.count(" ") >= 2 else fb
+        if impl_fb != model_fb:
+            ctx.disagree("q.fallback", inp, impl_fb, fb)
+        if is_kw:
+            tb = out[nset + 1]
+            impl_tb = table_impl(data, xr, bufsiz)
+            ctx.branch("tie:q.table-damaged:" + ("ok" if tb.startswith("ok") else "error"))
+            model_tb = tb.split(" ", 2)[2] if tb.startswith("ok ") and tb.count(" ") >= 2 else tb
+            if impl_tb != model_tb:
+                ctx.disagree("q.table", inp, impl_tb, tb)
+
 WHAT.update({
     "damaged-open": "damaged single-revision file could not be opened (no body-scan recovery)",
     "damaged-getobj": "damaged single-revision file: the body scan does not return an object as written",
@@ -988,6 +1068,7 @@ def run_damaged_cases(ctx: C.Ctx) -> None:
         r = check_damaged(ctx, dc, b)
         if r is not None:
             report_damaged(ctx, dc, r, b)
+        tie_damaged(ctx, dc, b)
 
 
 def run_corpus(ctx: C.Ctx) -> None:
